@@ -178,7 +178,7 @@ def run(ctx):
         else:
             gens = [("gen", None, None, 2), ("gen3", None, None, 1), ("genS", None, None, 1), ("genE", None, None, 2), ("sim", 300, 10, 3)]
         jobs = [(name, dict(spec="mc/MC_OJson.tla", cfg="mc/OJson_%s.cfg" % name, workers=1,
-                            simulate=sim, depth=(depth + 1 if depth else None), timeout=3000))
+                            simulate=sim, depth=(depth + 2 if depth else None), timeout=3000))
                 for name, sim, depth, _ in gens]
         results = tlc_many(ctx, jobs, par=3)
         behaviours, cases, per_gen = [], [], {}
